@@ -3,7 +3,7 @@
    user sources in order, merged and validated by Schema.validateSchemaDocument. *)
 From Coq Require Import List.
 From GQL.model Require Import Base Utf8 Lexer Ast Parser ParseQuery ParseSchema Schema Ops.
-From GQL.proofs Require Import LoadedClosed.
+From GQL.proofs Require Import LoadedClosed LoadOrder RelationsExact.
 Import ListNotations.
 
 (* Closed: every field's type exists and is an output type (on objects and interfaces) or an
@@ -75,6 +75,27 @@ Proof.
   - intros n Hn. destruct (P2 n Hn) as [x [Hx <-]]. apply Hdd. exact Hx.
 Qed.
 Print Assumptions C07_builtins_present.
+
+(* The possible-type and implements tables of a loaded schema are exactly the ones implied by its
+   definitions: t is listed under k in PossibleTypes iff some definition gives it (a union k with
+   member t that is a type of the schema; an object t implementing k, or t = k an object; an
+   interface t implementing k), and t is listed under k in Implements iff some definition gives it
+   (an object or interface k implementing t; a union t with member k).  gives_possible and
+   gives_implements are in RelationsExact.v. *)
+Theorem C07_relations_exact : forall sd s, validateSchemaDocument sd = Some s ->
+  forall k t,
+    (In t (LoadOrder.get k s.(sc_possible)) <->
+       exists n def, lookup n s.(sc_types) = Some def /\ gives_possible (fun x => is_some (lookup x s.(sc_types))) def k t)
+    /\ (In t (LoadOrder.get k s.(sc_implements)) <->
+       exists n def, lookup n s.(sc_types) = Some def /\ gives_implements def k t).
+Proof. exact loaded_relations_exact. Qed.
+Print Assumptions C07_relations_exact.
+
+(* every definition of a loaded schema is stored under its own name *)
+Theorem C07_names : forall sd s, validateSchemaDocument sd = Some s ->
+  forall n def, lookup n s.(sc_types) = Some def -> def.(df_name) = n.
+Proof. exact loaded_names. Qed.
+Print Assumptions C07_names.
 
 (* non-vacuity: a schema with an interface, a union, an input object and a custom root loads *)
 Example C07_nonvacuous :
